@@ -41,12 +41,13 @@ func init() {
 	})
 	register(&Property{
 		ID: "C15",
-		Explanation: "Decides structural necessary conditions of token-set resolution: SIBLING(resolvesets): each work-list case of syntax.ResolveSets (any/first/last/precede/follow) instantiates the sets its definition needs, walks the rule in the right direction from the right position, stops after the first non-nullable symbol (polarity of the nullable test) and falls through to the enclosing nonterminal only when the walk was not stopped. " +
+		Explanation: "Decides structural necessary conditions of token-set resolution: SIBLING(resolvesets): each work-list case of syntax.ResolveSets (any/first/last/precede/follow) instantiates the sets its definition needs, walks the rule in the right direction from the right position, stops after the first non-nullable symbol (polarity of the nullable test) and falls through to the enclosing nonterminal only when the walk was not stopped. MUSTPASS(set-contribution): in the any/first/last cases every rule reaches the rules[r].set test (set-defined nonterminals are empty rules carrying a set). " +
 			"SHARED: an in-place, self-dependent rewrite of TokenSet nodes inside a per-set traversal consults a visited set that outlives one traversal (nodes are shared between named sets). CYCLE: every recursion over *syntax.TokenSet (cyclic for mutually recursive named sets) is cut by a visited set keyed by the node. ALIAS/ESCAPE: scratch buffers of the set closure never alias an operand and buffer-backed slices are not retained. GUARD(complcycle): complement-on-cycle is reported exactly under op==complement ∧ onStack. DTX(setalg) as in C25. " +
 			"Not decided: that the fixpoint equals the definitional sets, Nullable(), reachability from the first input.",
-		Rules: []string{"SIBLING(resolvesets)", "CYCLE", "SHARED", "ALIAS", "ESCAPE", "GUARD(complcycle)", "DTX(setalg)", "GUARD(unionclone)"},
+		Rules: []string{"SIBLING(resolvesets)", "MUSTPASS(set-contribution)", "CYCLE", "SHARED", "ALIAS", "ESCAPE", "GUARD(complcycle)", "DTX(setalg)", "GUARD(unionclone)"},
 		Run: func(c *Ctx) {
 			ruleRESOLVESETS(c)
+			ruleSETCONTRIB(c)
 			ruleCYCLE(c)
 			ruleSHARED(c)
 			pk := map[string]bool{"util/set": true, "util/container": true, "syntax": true}
@@ -375,8 +376,10 @@ func init() {
 		ID: "C17",
 		Explanation: "Decides structural necessary conditions of 'generation completes and the generated Go code builds' on the template trees (parsed with text/template/parse, never executed, so option branches no shipped grammar instantiates are covered): TMPLGUARD: in parser.go/parser_tables.go/stream.go templates, node-type identifiers (NodeType/NodeFlags via nodeTypeRef…, node_id) appear only under guards implying .Parser.Types. TMPL(threshold): a numeric threshold tested by two Go templates is tested identically (helper emitted iff called). " +
 			"TMPLNAMES: every {{template}} resolves and every pipeline function is registered. ERRGUARD: a return taken because error E is non-nil returns E (gen.Generate and the compiler packages). Not decided: the option x feature space as a whole; Go type-correctness of un-instantiated branches.",
-		Rules: []string{"TMPLGUARD", "TMPL(threshold)", "TMPLNAMES", "ERRGUARD"},
+		Rules: []string{"TMPLGUARD", "TMPL(threshold)", "TMPLNAMES", "ERRGUARD", "PAIR(intern)", "AGREE(session)"},
 		Run: func(c *Ctx) {
+			ruleINTERN(c, "syntax", "compiler", "grammar", "gen", "lalr", "lex")
+			ruleSESSION(c)
 			ruleTMPLGUARD(c)
 			ruleTMPLTHRESHOLD(c)
 			ruleTMPLNAMES(c)
